@@ -57,7 +57,7 @@ FRAG = {
           {"insertions": a_diff2},
           {"order": {"type": "label"}}, {"insertions": a_ins, "order": {"type": "opposing_element", "element_id": 1,
                                                                         "measure": "count_unweighted"}}],
-    "d": [{}, {"insertions": a_ins}, {"insertions": a_ins, "prune": True}],
+    "d": [{}, {"insertions": a_ins}, {"insertions": a_ins, "prune": True}, {"insertions": a_diff2}],
     "b": [{}, {"insertions": b_ins}, {"insertions": b_diff}, {"insertions": b_ins, "order": {"type": "explicit", "element_ids": [2, 1]}},
           {"elements": {"1": {"hide": True}}}, {"prune": True, "order": {"type": "label"}},
           {"insertions": b_ins + [subtotal("b2", [2], anchor="bottom", sid=7)],
